@@ -17,6 +17,7 @@ class Exc:
     """An in-flight exception."""
 
     def __init__(self, cls=None, ref=None, origin="", is_exception=None):
+        self.rid = None                   # identity of the exception object (opaque reference)
         self.cls = cls                    # real Python class, or None = unknown class
         self.ref = ref                    # V of the exception object when it has a schema
         self.origin = origin
